@@ -33,6 +33,29 @@ def load_baseline():
     return {}
 
 
+def check_lean_lemmas(report):
+    import glob
+    import shutil
+    import subprocess
+    files = sorted(glob.glob(os.path.join(common.ROOT, "lemmas", "*.lean")))
+    lean = shutil.which("lean")
+    if lean is None:
+        report.assumptions.append("lean is not on PATH: the inductive lemmas in lemmas/*.lean were NOT re-checked in this run")
+        return {"files": [os.path.basename(f) for f in files], "checked": False}
+    out = {"files": [], "checked": True}
+    for f in files:
+        try:
+            r = subprocess.run([lean, f], capture_output=True, text=True, timeout=300, cwd=os.path.dirname(f))
+            txt = (r.stdout + r.stderr)
+            ok = r.returncode == 0 and "sorry" not in txt and "error" not in txt.lower() and "sorry" not in open(f).read().split("-/", 1)[-1]
+        except Exception as e:                       # noqa: BLE001
+            ok, txt = False, f"{type(e).__name__}: {e}"
+        out["files"].append({"file": os.path.basename(f), "accepted": ok})
+        if not ok:
+            report.failures.append(f"Lean rejects lemmas/{os.path.basename(f)}: {txt[:300]}")
+    return out
+
+
 def run_proofs(report, prop, modules, timeout_ms=None):
     """modules: list of (contract_module_name, [function qualnames]).
     Returns (records, n_obligations, n_discharged)."""
@@ -45,6 +68,8 @@ def run_proofs(report, prop, modules, timeout_ms=None):
     report.coverage["ext_valid"] = {"checks": n_ext, "failed": ext_fails}
     for f in ext_fails:
         report.failures.append(f"ext-valid: the assumed external contract '{f}' disagrees with the real library")
+    # the inductive lemmas the proofs assume are re-checked by Lean on every run (a rejected or admitted lemma is a checker failure)
+    report.coverage["lean_lemmas"] = check_lean_lemmas(report)
     # encoder cross-check: the engine, run as a concrete interpreter on the real source, against CPython
     from .pyvc import crosscheck
     try:
